@@ -28,6 +28,20 @@ if TYPE_CHECKING:
     from numpy.typing import ArrayLike, NDArray
 
 
+def _widen(arr: NDArray) -> NDArray:
+    """Store narrow NumPy numbers (int8 ... int32, float16, float32) as int64 / float64.
+
+    A parameter stands for its number; arithmetic carried out in the narrow type
+    of the data it was read from wraps around or loses precision
+    (np.int8(100) * 2 == -56).
+    """
+    if arr.dtype.kind in "iu" and arr.dtype.itemsize < 8:
+        return arr.astype(np.int64)
+    if arr.dtype.kind == "f" and arr.dtype.itemsize < 8:
+        return arr.astype(np.float64)
+    return arr
+
+
 class Parameter(Expression):
     """An updatable constant for optimization problems.
 
@@ -70,7 +84,9 @@ class Parameter(Expression):
         """
         self.name = name
         self._value: float | NDArray[np.floating] = (
-            np.asarray(value) if not isinstance(value, (int, float)) else float(value)
+            _widen(np.asarray(value))
+            if not isinstance(value, (int, float))
+            else float(value)
         )
 
     @property
@@ -97,7 +113,9 @@ class Parameter(Expression):
             120.0
         """
         new_value: float | NDArray[np.floating] = (
-            np.asarray(value) if not isinstance(value, (int, float)) else float(value)
+            _widen(np.asarray(value))
+            if not isinstance(value, (int, float))
+            else float(value)
         )
 
         # Check shape compatibility for arrays
